@@ -244,6 +244,11 @@ class MergeChecker:
         # ---- exceptions ------------------------------------------------
         if kind == "raise":
             line = getattr(r.node, "lineno", 0)
+            if r.exc == "ForeignPairAccess":
+                self.add("C01.isolation", "%s:%s:%s:reverse-pair-data" % (mode, case, ek),
+                         "add_interaction(u, v) reaches for the stored data of the reverse pair (v, u): on a directed graph the two "
+                         "are different interactions and must not affect each other", wit, line)
+                return
             if should_reject and r.exc == "ValueError" and r.explicit:
                 if w.effects:
                     self.add("C07.atomic", "reject:write-before-raise:%s" % w.effects[0][0][0],
